@@ -308,9 +308,12 @@ def lower(v, _seen=None):
         if extra:
             raise LowerError(f"{v.cls.__name__} object has attributes {sorted(extra)} outside its registered fields")
         fields = []
+        is_ast = isinstance(v.cls, type) and issubclass(v.cls, pyast.AST)
         for f in info.fields:
             if f in v.attrs:
                 fields.append(lower(v.attrs[f]))
+            elif is_ast:
+                fields.append(VNone)       # unset optional AST field == None for ast.unparse
             else:
                 fields.append(VAtom(z3.IntVal(REG.atom(_MISSING, "<missing>"))))
         oid = v.oid if info.identity else 0
@@ -319,7 +322,7 @@ def lower(v, _seen=None):
         return VAtom(z3.IntVal(REG.atom(v)))
     if isinstance(v, pyast.AST):
         info = REG.info(type(v))
-        return VObj(z3.IntVal(info.cid), vlist([lower_native(getattr(v, f, _MISSING)) for f in info.fields]), z3.IntVal(0))
+        return VObj(z3.IntVal(info.cid), vlist([lower_native(getattr(v, f, None)) for f in info.fields]), z3.IntVal(0))
     if isinstance(v, type) or callable(v):
         return VAtom(z3.IntVal(REG.atom(v, getattr(v, "__qualname__", repr(v)))))
     # a real (native) object of a registered class: lower through its getter / getattr
@@ -469,6 +472,23 @@ def dget(l, k, dflt):
     return z3.If(h, dlookup(l, k), dflt)
 
 
+def vconcat(a, b):
+    """list concatenation with the unit laws applied / recorded (concat(a, nil) = a needs induction on a)"""
+    a, b = z3.simplify(a), z3.simplify(b)
+    if z3.is_app(b) and b.decl().name() == "VNil":
+        return a
+    if z3.is_app(a) and a.decl().name() == "VNil":
+        return b
+    t = vl_concat(a, b)
+    LEMMAS.append(z3.Implies(b == VNil, t == a))
+    return t
+
+
+def vsnoc(l, x):
+    """append one element (as concatenation with a singleton, so that appends and spec-level ++ agree syntactically)"""
+    return vconcat(l, VCons(x, VNil))
+
+
 def nth(l, i: int):
     for _ in range(i):
         l = tl(l)
@@ -486,6 +506,13 @@ def truthy(t):
            z3.If(is_VList(t), is_VCons(vl(t)),
            z3.If(is_VTuple(t), is_VCons(vt(t)),
            z3.If(is_VDict(t), is_VCons(vd(t)), z3.BoolVal(True)))))))))
+
+
+vl_any = _recfun("vl_any", [VL, z3.BoolSort()],      # any(truthy(x) for x in l)
+                 lambda f, l: z3.If(is_VNil(l), z3.BoolVal(False), z3.Or(truthy(hd(l)), f(tl(l)))))
+vl_all = _recfun("vl_all", [VL, z3.BoolSort()],
+                 lambda f, l: z3.If(is_VNil(l), z3.BoolVal(True), z3.And(truthy(hd(l)), f(tl(l)))))
+
 
 
 def is_instance(t, pycls):
@@ -523,11 +550,12 @@ def mk_obj(pycls, oid=0, **fields):
     """Spec-side constructor: VObj term of a registered class."""
     info = REG.info(pycls)
     vals = []
+    is_ast = isinstance(pycls, type) and issubclass(pycls, pyast.AST)
     for f in info.fields:
         if f in fields:
             vals.append(lower(fields[f]))
         else:
-            vals.append(ABSENT)
+            vals.append(VNone if is_ast else ABSENT)
     extra = set(fields) - set(info.fields)
     if extra:
         raise ValueError(f"{pycls.__name__}: unknown fields {extra}")
